@@ -861,11 +861,12 @@ fn channels_case(env: &Env, src: &mut Src<'_>) -> CaseResult {
         if ch.total.is_none() && l.close.res != Some(OpRes::Done) {
             known_or_violation(env, "c13:close-failed", format!("channel {c}: close({}) returned {:?}", ch.n, l.close.res), case(&logs))?;
         }
-        if ch.send_past.is_some() && l.past.res != Some(OpRes::TooManyRecords) {
+        // "sending beyond the count is an error": any error value will do, the variant is the code's choice
+        if ch.send_past.is_some() && !matches!(l.past.res, Some(OpRes::TooManyRecords | OpRes::OtherErr(_))) {
             known_or_violation(
                 env,
                 "c13:send-past-total-accepted",
-                format!("channel {c}: send({}) on a channel of {} records returned {:?} instead of TooManyRecords", ch.n + ch.send_past.unwrap(), ch.n, l.past.res),
+                format!("channel {c}: send({}) on a channel of {} records returned {:?} instead of an error", ch.n + ch.send_past.unwrap(), ch.n, l.past.res),
                 case(&logs),
             )?;
         }
@@ -901,7 +902,9 @@ fn channels_case(env: &Env, src: &mut Src<'_>) -> CaseResult {
         }
         if ch.ask_eos {
             let want = if is_shard { OpRes::End } else { OpRes::EndOfStream };
-            if l.recvs[ch.n].res.as_ref() != Some(&want) {
+            // the channel is closed after its records: the receive past them must say so - end of
+            // the stream or an error value of whatever variant - and must neither hang nor yield data
+            if !matches!(l.recvs[ch.n].res, Some(OpRes::End | OpRes::EndOfStream | OpRes::OtherErr(_))) {
                 known_or_violation(
                     env,
                     "c13:no-end-of-stream",
@@ -985,7 +988,7 @@ pub fn subs(env: &Env) -> Vec<Sub> {
             30_000,
             1_500_000,
             channels_case,
-            "TestWorld with 1..3 shards, active in {2,4,16}, read_size in {1,3,16,2048}, 1..4 channels (helper pairs and shard pairs; later channels differ from an earlier one in one coordinate: peer, direction, step, shard, helper-vs-shard), message size in {1,2,3,4,5,7,8,14,18,32}, 1..40 records, specified or indeterminate total; one task per send and per receive with generated yield_now counts before entering the active window and before the operation (at most `active` records outstanding per side), optional late receivers / late senders, sending ends that are only opened after the receivers (and their throw-away peeks) have run, i.e. before the peer's stream is registered with the transport, receive(total) and send(>=total) probes; oracle: receive(i) = f(channel, i), EndOfStream / TooManyRecords on the probes, every operation completes (exact quiescence detection through the runtime's park hook; wall-clock limit = rejected case); non-trivial = at least one send or receive issued out of index order",
+            "TestWorld with 1..3 shards, active in {2,4,16}, read_size in {1,3,16,2048}, 1..4 channels (helper pairs and shard pairs; later channels differ from an earlier one in one coordinate: peer, direction, step, shard, helper-vs-shard), message size in {1,2,3,4,5,7,8,14,18,32}, 1..40 records, specified or indeterminate total; one task per send and per receive with generated yield_now counts before entering the active window and before the operation (at most `active` records outstanding per side), optional late receivers / late senders, sending ends that are only opened after the receivers (and their throw-away peeks) have run, i.e. before the peer's stream is registered with the transport, receive(total) and send(>=total) probes; oracle: receive(i) = f(channel, i), end-of-stream or an error (any variant) on the receive-past-the-end probe and an error (any variant) on the send-past-the-total probe, every operation completes (exact quiescence detection through the runtime's park hook; wall-clock limit = rejected case); non-trivial = at least one send or receive issued out of index order",
         )
         .shrink_iters(300),
     ]
